@@ -22,13 +22,14 @@ def one(rnd):
         r = rnd.random()
         k = rnd.randint(0, 6)
         if r < 0.45:
-            ops.append(['set', k, rnd.randint(0, 99)])
-            mc.set(LeafHash(k), ops[-1][2], None)
+            # the value 0 of the op list stands for a stored None (a user function may well return None)
+            ops.append(['set', k, rnd.choice([0, 0, rnd.randint(1, 99), rnd.randint(1, 99), rnd.randint(1, 99)])])
+            mc.set(LeafHash(k), ops[-1][2] or None, None)
             obs.append([None, len(mc._cache)])
         elif r < 0.92:
             ops.append(['get', k])
             v, hit = mc.get(LeafHash(k), None)
-            obs.append([v if hit else None, len(mc._cache)])
+            obs.append([(0 if v is None else v) if hit else None, len(mc._cache)])
         else:
             ops.append(['clear'])
             mc.clear()
